@@ -37,6 +37,10 @@ def configs(t, sd):
         out.append({"methods": [], "bare": bare, "clear": ["expr", None, "sub", "abi", "expr-reject"][bi % 5]})
         if bi % 2 == 0:
             out.append({"methods": [{"name": "beta", "config": {"no_op": 1}}], "bare": bare, "clear": "sub"})
+    # registration through the decorator with keyword arguments (unspecified OnCompletions are NEVER; no keyword = no_op CALL)
+    for mc in [(1, 0, 0, 0, 0), (0, 1, 0, 0, 0), (0, 3, 0, 0, 0), (0, 0, 2, 0, 0), (0, 0, 0, 1, 1), (3, 1, 0, 0, 0), (0, 0, 0, 0, 3), (2, 0, 0, 0, 0), (0, 1, 1, 1, 1)]:
+        out.append({"methods": [{"name": "deco", "config": dict(zip(OCS5, mc)), "via": "decorator"}], "bare": {}, "clear": "expr"})
+    out.append({"methods": [{"name": "deco_default", "config": {"no_op": 1}, "via": "decorator-default"}], "bare": {}, "clear": "expr"})
     # several methods
     for k in (2, 3):
         for _ in range(12 if t == "quick" else 60):
